@@ -1,10 +1,10 @@
 (* AllRun2.v -- the executable forms of the T2 invariants of the STAGE-2 engine model, evaluated together on one snapshot of
-   the real engine by the correspondence check (dispatch_model 38): L [cfg; state] -> L [A wfx2; A sched; A next; A svc2; A ren; A prio; A rows2; A blk2; A srv2; A idle2; A clk2; A cnt2; A clk2r; A noinv].
+   the real engine by the correspondence check (dispatch_model 38): L [cfg; state] -> L [A wfx2; A sched; A next; A svc2; A ren; A prio; A rows2; A blk2; A srv2; A idle2; A clk2; A cnt2; A clk2r; A noinv; A slot].
    Invariants proved in a restricted scope are reported as 1 outside it. *)
 From Coq Require Import ZArith List Bool.
 From CiwV Require Import Sx Prelude.
 From CiwV.Engine Require Import State2 Engine2 Codec2.
-From CiwV.Inv Require Conserve2 Sched2 Preempt2 Renege2 Route2 Samples2 Blocking2 Servers2 Clock2 HorizonCount2 Journey2 Horizon2 Clock2r Inversion2 Journey2s.
+From CiwV.Inv Require Conserve2 Sched2 Preempt2 Renege2 Route2 Samples2 Blocking2 Servers2 Clock2 HorizonCount2 Journey2 Horizon2 Clock2r Inversion2 Journey2s Slot2.
 Import ListNotations.
 Open Scope Z_scope.
 
@@ -24,7 +24,8 @@ Definition invs2_b (cf : config) (s : sim) : list bool :=
     negb (Clock2.scope cf) || Horizon2.hzn2_b cf s;                    (* C02: nothing scheduled in the past, the active node's date = now (scope: Clock2.scope) *)
     HorizonCount2.cinv_b cf s;
     negb (Clock2r.scope_r_partial cf) || Clock2r.clk2r_b cf s;
-    negb (Inversion2.inv_scope cf) || Inversion2.invj_b cf s ].      (* C11: no priority inversion at pre-emptive nodes (scope: Inversion2.inv_scope) *)    (* C02 with the resume option of pre-emptive capacitated slots (no capacities): Clock2r *)                                     (* C14: the four counts are ordered (completed <= finished <= arrived, accepted <= arrived) *)   (* C05: nobody waits while an on-duty server idles *)              (* C07 / C06: counter = length; in their scopes: nobody blocked while there is space, population <= capacity *)                  (* C09: the hypotheses of the routing theorems hold of the configuration *)              (* C13: reneging dates (scope: no pre-emption of any kind) *)
+    negb (Inversion2.inv_scope cf) || Inversion2.invj_b cf s;
+    Slot2.slot_inv_b cf s && Slot2.slot_next_b cf s ].               (* C12, slots: next slot at slotdate k, never overdue, a slot event runs at its date; every configuration *)      (* C11: no priority inversion at pre-emptive nodes (scope: Inversion2.inv_scope) *)    (* C02 with the resume option of pre-emptive capacitated slots (no capacities): Clock2r *)                                     (* C14: the four counts are ordered (completed <= finished <= arrived, accepted <= arrived) *)   (* C05: nobody waits while an on-duty server idles *)              (* C07 / C06: counter = length; in their scopes: nobody blocked while there is space, population <= capacity *)                  (* C09: the hypotheses of the routing theorems hold of the configuration *)              (* C13: reneging dates (scope: no pre-emption of any kind) *)
 
 Definition run_invs2 (inp : sx) : sx :=
   match inp with
@@ -36,7 +37,7 @@ Definition run_invs2 (inp : sx) : sx :=
   | _ => A (-1)
   end.
 
-Theorem invs2_b_sound cf s : invs2_b cf s = [true; true; true; true; true; true; true; true; true; true; true; true; true; true] ->
+Theorem invs2_b_sound cf s : invs2_b cf s = [true; true; true; true; true; true; true; true; true; true; true; true; true; true; true] ->
   Conserve2.WFx2 [] s /\ Sched2.SchedInv cf s /\ Sched2.NextInv cf s /\
   Samples2.SvcInv s /\ (Renege2.nopre cf = true -> Renege2.RenInv cf s) /\
   Route2.PrioInv cf s /\ Route2.routing_ok cf /\ Route2.ccm_ok cf /\
@@ -44,9 +45,10 @@ Theorem invs2_b_sound cf s : invs2_b cf s = [true; true; true; true; true; true;
   (Servers2.srv_scope cf = true -> Servers2.SrvInv2 cf s /\ Servers2.NonIdle2 cf s) /\
   (Clock2.scope cf = true -> Horizon2.Hzn2 cf s) /\ HorizonCount2.CInv cf s /\
   (Clock2r.scope_r_partial cf = true -> Clock2r.Clk2r cf s) /\
-  (Inversion2.inv_scope cf = true -> Inversion2.InvJ cf s).
+  (Inversion2.inv_scope cf = true -> Inversion2.InvJ cf s) /\
+  Slot2.SlotInv cf s /\ Slot2.SlotNext cf s.
 Proof.
-  unfold invs2_b. intros H. injection H as H1 H2 H3 H4 H5 H6 H7 H9 H10 H11 H12 H13 H14 H15.
+  unfold invs2_b. intros H. injection H as H1 H2 H3 H4 H5 H6 H7 H9 H10 H11 H12 H13 H14 H15 H16.
   split; [apply Conserve2.wfx2_b_sound; exact H1|]. split; [apply Sched2.sched_inv_b_sound; exact H2|]. split; [apply Sched2.next_inv_b_sound; exact H3|].
   split; [apply Samples2.SvcInv_b_sound; exact H4|].
   split; [intros Hs; rewrite Hs in H5; cbn in H5; apply Renege2.RenInv_b_sound; exact H5|].
@@ -61,7 +63,10 @@ Proof.
           split; [apply Servers2.srvinv2_b_sound; exact H10|apply Servers2.nonidle2_b_sound; exact H11]|].
   split; [intros Hs; rewrite Hs in H12; cbn in H12; apply Horizon2.hzn2_b_sound; exact H12|].
   split; [apply HorizonCount2.cinv_b_sound; exact H13|].
-  split; [intros Hs; rewrite Hs in H14; cbn in H14; apply Clock2r.clk2r_b_sound; exact H14|intros Hs; rewrite Hs in H15; cbn in H15; apply Inversion2.invj_b_sound; exact H15].
+  split; [intros Hs; rewrite Hs in H14; cbn in H14; apply Clock2r.clk2r_b_sound; exact H14|].
+  apply andb_true_iff in H16 as [H16 H17].
+  split; [intros Hs; rewrite Hs in H15; cbn in H15; apply Inversion2.invj_b_sound; exact H15|].
+  split; [apply Slot2.slot_inv_b_sound; exact H16|apply Slot2.slot_next_b_sound; exact H17].
 Qed.
 Print Assumptions invs2_b_sound.
 
